@@ -8,6 +8,9 @@ R = {
  "C13-f": (6, False, "C13 T3-propagate-single-cut extended: unlabelled occurrences are counted with multiplicity (a Vec grown per occurrence, not a map keyed by the edge)", "a relator walk that crosses one unlabelled edge several times: power relators (ab)^k at rows with torsion (S3 one-row table: generators span index 3)"),
  "C14-f": (6, True, "reported by the proactive T7-euclid-contract (round 3): the rounded quotient does not fold to an integer step, fail closed", "diagonal entries that are coprime and do not divide each other where the rounded Euclid ends on -1 (2,3 / 2,5 / 4,9): <a,b | a^2, b^3> gives [1,6]"),
  "C18-f": (6, False, "C18 T9-rhs-largest-norm (the right-hand side enters the bound with its largest column norm; ascending sort)", "right-hand sides with >= 2 columns of very different magnitude: solve returns wrong fractions"),
+ "C01-f": (6, False, "C01 T5-assert-on-built-dset (an assertion about the contents of the D-set built from the text must be established by from_str; only is_complete is, via T3-fill-complete)", "a syntactically valid text (dim >= 2, size >= 3) whose far-apart operations do not commute, e.g. <1.1:3:2 3,1 2 3,1 3:4 3,3 4>"),
+ "C02-f": (6, True, "reported by the proactive T4-storage-layout rule added an hour earlier", "grow(count) with count >= 2"),
+ "C12-f": (6, True, "", "deduction chains of depth >= 2 that close a relator cycle away from the scanned row: Coxeter group [4,3,4] at k = 4 (12 tables instead of 10)"),
  "C10-f": (6, True, "", "a non-cyclically-reduced word u v u^-1 with |u| >= 2 rotated by an offset between 2 and len - 2"),
 }
 for sid, (rnd, first, strength, needs) in R.items():
